@@ -187,8 +187,9 @@ func (c Call) byteCode(srcsel int, fl flags.Pass, cr compResult) bytecode.Type {
 
 func (r Return) byteCode(srcsel int, fl flags.Pass, cr compResult) bytecode.Type {
 	if fl.Data().InFor {
+		// a return leaves every enclosing for loop of the function, not just the innermost
 		instr := bytecode.New(bytecode.RCONT) |
-			bytecode.EncodeSrc(0, bytecode.AddrImm, fl.Data().CtxLo) |
+			bytecode.EncodeSrc(0, bytecode.AddrImm, 0) |
 			bytecode.EncodeSrc(1, bytecode.AddrImm, fl.Data().CtxHi)
 		*cr.CS = append(*cr.CS, instr)
 	}
